@@ -89,6 +89,13 @@ func genCase(t *rapid.T) Case {
 			for j := rapid.IntRange(1, 4).Draw(t, "ncont"); j > 0; j-- {
 				op.Specs = append(op.Specs, ck.GenBlock(t, bias, 3))
 			}
+			// the first block after the reset asks the Ledger contract about the block the node was reset to (the
+			// in-memory top block of the node is rebuilt by the reset)
+			if rapid.IntRange(0, 2).Draw(t, "ask") == 0 {
+				q := ck.Action{Kind: "ledger_q", From: rapid.IntRange(0, 3).Draw(t, "asker"), A: 0, B: rapid.IntRange(0, 1).Draw(t, "txidx"),
+					N: rapid.Int64Range(0, 1).Draw(t, "q"), Nonce: rapid.Uint32().Draw(t, "qnonce")}
+				op.Specs[0].Txs = append([]ck.Action{q}, op.Specs[0].Txs...)
+			}
 		}
 		c.Ops = append(c.Ops, op)
 	}
@@ -512,6 +519,11 @@ func checkCase(c Case, o *vt.Obs) error {
 	}
 	if sawReset {
 		o.Label("reset")
+	}
+	for _, l := range b.FlowLabels() {
+		if strings.HasPrefix(l, "ledger-question") {
+			o.Label("flow:" + l)
+		}
 	}
 	if sawHeaders {
 		o.Label("headers-ahead")
